@@ -1,25 +1,31 @@
 #!/bin/sh
-# Runs the repository's pinned suite with the verification guard OFF and compares the passing set
-# with /root/.vp/BASELINE.json (stable_pass).  Exit 0 iff every stable test still passes.
+# Runs the repository's pinned suite with the verification guard OFF (the BASELINE command:
+# cargo nextest, one process per test) and compares the passing set with
+# /root/.vp/BASELINE.json (stable_pass).  Exit 0 iff every stable test still passes.
 cd /repo || exit 2
 export CARGO_NET_OFFLINE=true
 unset RUSTFLAGS
 OUT=/verif/work/baseline_off.log
 mkdir -p /verif/work
-timeout 7200 cargo test --workspace --no-fail-fast --offline -- --test-threads 8 >"$OUT" 2>&1
+if [ -f /w/lib/nextest.toml ]; then CFG="--tool-config-file pb:/w/lib/nextest.toml --profile pb"; else CFG=""; fi
+timeout 10000 cargo nextest run --workspace --no-fail-fast $CFG --test-threads 8 --offline >"$OUT" 2>&1
 python3 - "$OUT" <<'PY'
 import json, re, sys
 log = open(sys.argv[1], errors="replace").read()
+log = re.sub(r"\x1b\[[0-9;]*m", "", log)
 base = json.load(open("/root/.vp/BASELINE.json"))["stable_pass"]
-passed = set(re.findall(r"^test (\S+) \.\.\. ok", log, re.M))
-failed = set(re.findall(r"^test (\S+) \.\.\. FAILED", log, re.M))
-missing = []
-for t in base:
-    name = t.split("::", 1)[1]
-    if name not in passed:
-        missing.append(t)
-print(f"baseline stable_pass={len(base)} passed_now={len(base)-len(missing)} missing={len(missing)}")
+passed = set()
+for m in re.finditer(r"^\s*PASS\s+\[[^\]]*\]\s+(?:\(\s*\d+/\d+\)\s+)?(\S+)\s+(\S+)", log, re.M):
+    passed.add(m.group(1) + "::" + m.group(2))
+def norm(t):       # BASELINE: crate::[binary::]test ; nextest: 'crate[::binary] test'
+    return t
+missing = [t for t in base if t not in passed and not any(p.replace("::", "::", 1) == t for p in ())]
+# tolerate the two naming schemes: compare on the test path after the crate name too
+if missing:
+    tails = {p.split("::", 1)[1] if "::" in p else p for p in passed}
+    missing = [t for t in missing if t.split("::", 1)[1] not in tails]
+print(f"baseline stable_pass={len(base)} passing_now={len(base)-len(missing)} missing={len(missing)}")
 for m in missing[:40]:
-    print("  NOT PASSING:", m, "(FAILED)" if m.split('::',1)[1] in failed else "(not run)")
+    print("  NOT PASSING:", m)
 sys.exit(1 if missing else 0)
 PY
